@@ -488,7 +488,9 @@ func main() {
 		}
 		allow := r.Bool()
 
-		if !run.Want() {
+		// every history yields two cases (history, wire): ids nf+2i and nf+2i+1
+		if base := nf + 2*i; !run.WantID(base) && !run.WantID(base+1) {
+			run.Skip()
 			run.Skip()
 			continue
 		}
@@ -655,7 +657,70 @@ func main() {
 			"hist": histD, "pifs": fmt.Sprint(pifs), "allow": allow, "dump": dump, "prop": propDesc}
 		term := vgen.App("BeaconPolicy.CHist", cfgT, histT, intfTerm(pifs), vgen.B(allow), nList(egress),
 			vgen.List(oks), dumpT, vgen.List(propT))
+		// defect class "loop-through-local-as", from the input: a received beacon that passes the handler's own
+		// checks (ingress link, last entry, next, verdicts) loops on the wire (hops ++ local ++ neighbour) on some
+		// egress interface although the propagator's check (hops ++ neighbour) lets it pass
+		var tags []string
+		mkSeg := func(ias []ia) beacon.Beacon {
+			ps := &seg.PathSegment{}
+			for _, a := range ias {
+				ps.ASEntries = append(ps.ASEntries, seg.ASEntry{Local: a.addr()})
+			}
+			return beacon.Beacon{Segment: ps}
+		}
+		for _, b := range hist {
+			if len(b.Hops) == 0 || b.Next != local {
+				continue
+			}
+			good := true
+			for _, v := range b.Sigs {
+				good = good && v
+			}
+			var inIf *intf
+			for k := range ifs {
+				if ifs[k].ID == b.In {
+					inIf = &ifs[k]
+				}
+			}
+			if !good || inIf == nil || (inIf.Type != 1 && inIf.Type != 2) || inIf.Nb != b.Hops[len(b.Hops)-1].IA {
+				continue
+			}
+			var ias []ia
+			for _, h := range b.Hops {
+				ias = append(ias, h.IA)
+			}
+			for _, e := range pifs {
+				nb := addr.IA(0)
+				if e.Nb != (ia{}) {
+					nb = e.Nb.addr()
+				}
+				codeLoop := beacon.FilterLoop(mkSeg(ias), nb, allow) != nil
+				wireLoop := beacon.FilterLoop(mkSeg(append(append([]ia(nil), ias...), local)), nb, allow) != nil
+				if wireLoop && !codeLoop && len(tags) == 0 {
+					tags = append(tags, "loop-through-local-as")
+					run.Tally("known:loop-through-local-as")
+				}
+			}
+		}
 		id := run.Add("history", term, fmt.Sprint(cfgT, histT, allow), len(dump) > 0 && nRejected > 0, desc)
+		// the wire-level part of the property as a case of its own (carries the open finding)
+		seenKid := map[uint64]bool{}
+		var tbl []string
+		for _, b := range hist {
+			if seenKid[b.Kid] {
+				continue
+			}
+			seenKid[b.Kid] = true
+			var ias []ia
+			for _, h := range b.Hops {
+				ias = append(ias, h.IA)
+			}
+			tbl = append(tbl, vgen.Pair(vgen.N(b.Kid), iaList(ias)))
+		}
+		wterm := vgen.App("BeaconPolicy.CWire", local.term(), vgen.List(tbl), intfTerm(pifs), vgen.B(allow), vgen.List(propT))
+		run.Add("wire", wterm, fmt.Sprint(cfgT, histT, allow), nProp > 0,
+			map[string]any{"history_case": id, "local": local.String(), "pifs": fmt.Sprint(pifs), "allow": allow, "prop": propDesc,
+				"hist": histD}, tags...)
 		if anyPanic != "" {
 			run.Violate(id, "panic: "+anyPanic, desc)
 		}
